@@ -24,6 +24,14 @@ m = {
         "kind_free_text": "property-based testing over generated programs x generated schedules (and read-from choices in weak mode): the real "
                           "xenium headers run on real threads serialized by a token-passing scheduler, with a quarantine allocator, instrumented "
                           "plain accesses, fork-per-case isolation, explicit oracles, and shrinking on recorded decision traces",
+    }, {
+        "name": "vfuzz",
+        "path": "harness/fuzzseq.cpp",
+        "serves_properties": sorted(vprops.FUZZ.keys()),
+        "kind_free_text": "coverage-guided fuzzing (libFuzzer, clang 14) of a native AddressSanitizer + UBSan build with the library's assertions "
+                          "enabled: bytes are decoded into (container family, configuration, operation sequence), every result is compared with a "
+                          "reference model, full scans / per-key lookups / element census at the end; crash artifacts are confirmed 3x, minimized and "
+                          "stored as JSON replay files; runs inside the same vcheck.py command after the schedule campaign",
     }],
     "checks": [],
     "not_applicable": [],
